@@ -210,6 +210,32 @@ def run_check(ctx):
         elif r["not_consumed"]:
             tool_errors.append("%s: trace not consumed although no property was violated"
                                % os.path.basename(f["file"]))
+    scripts = None
+    if pid in ("C05", "C06", "C07"):
+        # spec -> implementation: every script of offers up to a length, with the decisions and the
+        # final score spec/OptScript.tla prescribes, replayed on a scripted state
+        maxlen = 7 if tier == "thorough" else 5
+        regimes = '{"zero"}' if pid == "C05" else '{"zero", "warm"}'
+        scfg = ('SPECIFICATION Spec\nCONSTANTS\n  MaxLen = %d\n  Offers = {"B", "b", "E", "w", "W", "U"}\n  Regimes = %s\n'
+                'INVARIANTS ZeroMonotone CountOK Emit\nCHECK_DEADLOCK FALSE\n' % (maxlen, regimes))
+        sr = vp.run_tlc("MC_OptScript", scfg, pid + "_scripts", workers=8, timeout=3000, xmx="8g", deque=False)
+        if sr.get("error") or sr["violations"]:
+            tool_errors.append("OptScript: %s %s" % (sr.get("error"), sr["violations"]))
+        else:
+            snd = os.path.join(sr["dir"], "emitted.ndjson")
+            ns = vp.extract_emitted(sr["out"], snd)
+            sres = os.path.join(sr["dir"], "result.json")
+            vp.pvh(["scripts", "--in", snd, "--out", sres, "--seed", str(seed)], timeout=3000)
+            st = json.load(open(sres))["scripts"]
+            states += sr["distinct"]
+            transitions += sr["generated"]
+            nruns += ns
+            scripts = {"scripts_replayed": ns, "steps": st["steps"], "max_length": maxlen, "regimes": regimes,
+                       "rule": "every sequence over {B,b,E,w,W,U} up to max_length; decisions read from the cells and the final score must be the prescribed ones"}
+            for f in st["first_failures"][:3]:
+                rp = vp.save_replay(pid, "script_seed%d" % seed, {"property": pid, "formula": "OptScript", "failures": [f]})
+                violations.append(("OptScript", f["what"] + " script=" + f["state"]["script"], rp))
+                break
     freq = None
     if pid in ("C07", "C18"):
         # statistical side-check, outside TLC: acceptance frequencies of controlled downhill moves
@@ -250,6 +276,7 @@ def run_check(ctx):
     coverage = {
         "cli_clause": cli,
         "frequency_side_check": freq,
+        "script_replay": scripts,
         "states": states, "transitions": transitions,
         "traces_validated_against_impl": nruns,
         "samples": samples,
